@@ -107,3 +107,98 @@ Definition froms_to_imports (lay : layout) (pr : prefs) (used : list dotted) (ex
   let used' := fold_left (fun us r => map (rename_from lay l4 (fst (fst r)) (snd (fst r)) (snd r)) us) rens used in
   let l5 := map (fun s => set_info s (to_normal (s_info s))) l4 in
   opt_bind (remove_duplicates (p_split pr) l5) (fun l6 => Some (reparse l6, used'))).
+
+(* ------------------------------------------------------------------ _remove_self_imports *)
+(* SelfImportVisitor: [me] is the absolute name of the module being tidied.  A plain import of [me] is
+   dropped and its name (alias or dotted name) is to be fixed; a from-import of [me] is emptied and its
+   aliases renamed back; a from-import of the package that imports the module [me] itself loses that pair
+   and the imported name is to be fixed. *)
+Definition abs_mod (lay : layout) (m : dotted) (lv : N) : option dotted :=
+  match assoc modref_eqb (m, lv) (l_abs lay) with
+  | Some a => Some a
+  | None => if N.eqb lv 0 then Some m else None
+  end.
+
+Definition is_me (me : dotted) (o : option dotted) : bool :=
+  match o with Some a => dotted_eqb a me | None => false end.
+
+Definition self_info (lay : layout) (me : dotted) (i : info) : info :=
+  match i with
+  | Normal ps => Normal (filter (fun p => negb (dotted_eqb (fst p) me)) ps)
+  | From m lv ps =>
+      if is_me me (abs_mod lay m lv) then Empty
+      else match abs_mod lay m lv with
+           | Some a => From m lv (filter (fun p => negb (dotted_eqb (a ++ [fst p]) me)) ps)
+           | None => i
+           end
+  | FromStar m lv => if is_me me (abs_mod lay m lv) then Empty else i
+  | Empty => Empty
+  end.
+
+(* to_be_fixed: the spellings under which the module names itself *)
+Definition self_fixed (lay : layout) (me : dotted) (i : info) : list dotted :=
+  match i with
+  | Normal ps => flat_map (fun p => if dotted_eqb (fst p) me then [nprimary p] else []) ps
+  | From m lv ps =>
+      if is_me me (abs_mod lay m lv) then []
+      else match abs_mod lay m lv with
+           | Some a => flat_map (fun p => if dotted_eqb (a ++ [fst p]) me then [fprimary p] else []) ps
+           | None => []
+           end
+  | _ => []
+  end.
+
+(* to_be_renamed: (alias, name) of from me import name as alias *)
+Definition self_renamed (lay : layout) (me : dotted) (i : info) : list (text * text) :=
+  match i with
+  | From m lv ps =>
+      if is_me me (abs_mod lay m lv)
+      then flat_map (fun p => match snd p with Some a => [(a, fst p)] | None => [] end) ps
+      else []
+  | _ => []
+  end.
+
+(* _rename_in_module(name, "", till_dot=True): mod.attr -> attr for every primary that reaches the module
+   through the word name[-1]; None = an occurrence not followed by a dot (ValueError) *)
+Definition fix_self (lay : layout) (l : list stmt) (me : dotted) (name : dotted) (u : dotted) : option dotted :=
+  match rename_at lay l (last name []) (Some (0%N, me)) [] [] u with
+  | Some [] => None
+  | Some r => Some r
+  | None => Some u
+  end.
+
+Fixpoint map_opt {A B} (f : A -> option B) (l : list A) : option (list B) :=
+  match l with
+  | [] => Some []
+  | x :: r => match f x, map_opt f r with Some y, Some r' => Some (y :: r') | _, _ => None end
+  end.
+
+Definition rename_alias (a n : text) (u : dotted) : dotted :=
+  match u with h :: r => if text_eqb h a then n :: r else u | [] => [] end.
+
+(* returns the statements and the used primaries after the step; when a bare use of the module's own
+   name stops the first renaming, nothing is changed (the case of several names with a later failure is
+   left to the harness flag) *)
+Definition remove_self_imports (lay : layout) (me : dotted) (used : list dotted) (l : list stmt)
+  : list stmt * list dotted :=
+  let fixed := flat_map (fun s => self_fixed lay me (s_info s)) l in
+  let renamed := flat_map (fun s => self_renamed lay me (s_info s)) l in
+  match fold_left (fun acc name => match acc with
+                                   | Some us => map_opt (fix_self lay l me name) us
+                                   | None => None
+                                   end) fixed (Some used) with
+  | None => (l, used)
+  | Some us =>
+      let us' := fold_left (fun us r => map (rename_alias (fst r) (snd r)) us) renamed us in
+      (reparse (map (fun s => set_info s (self_info lay me (s_info s))) l), us')
+  end.
+
+(* ImportTools.organize_imports with selfs=True *)
+Definition organize_self (lay : layout) (pr : prefs) (me : dotted) (used : list dotted) (exported : list text)
+           (l : list stmt) : option (list stmt * list dotted) :=
+  match stage1_infos lay pr (names_unused used exported) l with
+  | Some l3 =>
+      let '(l5, us) := remove_self_imports lay me used (reparse l3) in
+      Some (reparse (sort_imports lay (p_alpha pr) l5), us)
+  | None => None
+  end.
